@@ -234,8 +234,10 @@ class StateMatrix:
             value = xp.asarray(other.states)
         elif xp.isscalar(other):
             value = other
-        else:  # array
-            value = xp.asarray(other)[..., xp.newaxis, xp.newaxis]
+        else:  # array: its axes are the first axes of the state matrix
+            value = xp.asarray(other)
+            nax = max(self.states.ndim - value.ndim, 2)
+            value = value[(...,) + (xp.newaxis,) * nax]
         return value
 
     def __add__(self, other):
